@@ -26,6 +26,7 @@ mod p14;
 #[cfg(dsi_bitstream_verif_shuttle)]
 mod p15;
 mod p18;
+mod p19;
 
 use driver::*;
 
@@ -87,6 +88,10 @@ macro_rules! families {
                 type $f = p15::C15;
                 $body
             }
+            "C19W" => {
+                type $f = p19::C19W;
+                $body
+            }
             "C18" => {
                 type $f = p18::C18;
                 $body
@@ -142,6 +147,9 @@ fn main() {
             let to: u64 = arg_val(&args, "--to").and_then(|s| s.parse().ok()).unwrap_or(0);
             let trace_idx = args.iter().any(|a| a == "--trace-idx");
             let digests = args.iter().any(|a| a == "--digests");
+            if args.iter().any(|a| a == "--clean") {
+                p01::CLEAN_ARGS.store(true, std::sync::atomic::Ordering::Relaxed);
+            }
             families!(prop, F => worker::<F>(seed, tier, from, to, trace_idx, digests));
             0
         }
@@ -166,6 +174,67 @@ fn main() {
         "diag-probe" => {
             p05::diag_probe_child();
             0
+        }
+        "digests" => {
+            // D <index> <digest> <oracle or ->, one line per run (C19 configuration replay)
+            let from: u64 = arg_val(&args, "--from").and_then(|s| s.parse().ok()).unwrap_or(0);
+            let to: u64 = arg_val(&args, "--to").and_then(|s| s.parse().ok()).unwrap_or(0);
+            if args.iter().any(|a| a == "--clean") {
+                p01::CLEAN_ARGS.store(true, std::sync::atomic::Ordering::Relaxed);
+            }
+            install_panic_hook();
+            families!(prop, F => {
+                use std::io::Write;
+                let out = std::io::stdout();
+                let mut out = out.lock();
+                for i in from..to {
+                    let s = gen_scenario::<F>(seed, tier, i);
+                    let ctx = exec_guarded::<F>(&s, false);
+                    let o = ctx.violation.as_ref().map(|v| v.oracle.clone()).unwrap_or_else(|| "-".to_string());
+                    let _ = writeln!(out, "D {} {:016x} {} {}", i, ctx.digest, o, ctx.ops);
+                }
+                0
+            })
+        }
+        "digest-of" => {
+            // scenarios (one JSON per line) on stdin -> D <k> <digest> <oracle or ->
+            if args.iter().any(|a| a == "--clean") {
+                p01::CLEAN_ARGS.store(true, std::sync::atomic::Ordering::Relaxed);
+            }
+            install_panic_hook();
+            families!(prop, F => {
+                use std::io::BufRead;
+                let stdin = std::io::stdin();
+                for (k, line) in stdin.lock().lines().map_while(Result::ok).enumerate() {
+                    match serde_json::from_str::<<F as Family>::Scn>(&line) {
+                        Ok(s) => {
+                            let ctx = exec_guarded::<F>(&s, false);
+                            let o = ctx.violation.as_ref().map(|v| v.oracle.clone()).unwrap_or_else(|| "-".to_string());
+                            println!("D {} {:016x} {}", k, ctx.digest, o);
+                        }
+                        Err(e) => println!("E {} {}", k, e),
+                    }
+                }
+                0
+            })
+        }
+        "shrink" => {
+            // candidate simplifications of the scenario in the given file, one JSON per line
+            families!(prop, F => {
+                let txt = std::fs::read_to_string(&args[3]).unwrap_or_default();
+                match serde_json::from_str::<<F as Family>::Scn>(&txt) {
+                    Ok(s) => {
+                        for c in F::shrink(&s) {
+                            println!("{}", serde_json::to_string(&c).unwrap());
+                        }
+                        0
+                    }
+                    Err(e) => {
+                        println!("HARNESS-ERROR {}", e);
+                        2
+                    }
+                }
+            })
         }
         "gen" => {
             // print the scenario of run i (debugging aid)
